@@ -1008,7 +1008,9 @@ func c07r12(p *model.Prog, r *report.Result, rule string) {
 			return
 		}
 		n++
-		strict := d.GuardedBy(func(c ssa.Value, pol bool) bool {
+		// decisive edges: a CompareSeq test on the edge where "equal" is excluded, or a .Next
+		// found nil; the link must not be reachable from the entry without crossing one
+		strictEdge := func(c ssa.Value, pol bool) bool {
 			x, k, op, right, ok := constCmp(c)
 			if !ok {
 				return false
@@ -1027,14 +1029,29 @@ func c07r12(p *model.Prog, r *report.Result, rule string) {
 				}
 			}
 			return some
-		})
-		atEnd := d.GuardedBy(func(c ssa.Value, pol bool) bool {
+		}
+		endEdge := func(c ssa.Value, pol bool) bool {
 			x, nonNilOnTrue, isNil := nilTest(c)
 			if !isNil || nonNilOnTrue == pol {
 				return false // the edge on which x is nil is wanted
 			}
 			return model.LoadedField(x) == nextF
-		})
+		}
+		edgeOf := func(pred func(ssa.Value, bool) bool) func(b *ssa.BasicBlock, k int) bool {
+			return func(b *ssa.BasicBlock, k int) bool {
+				iff, ok := b.Instrs[len(b.Instrs)-1].(*ssa.If)
+				if !ok {
+					return false
+				}
+				c, pol := model.StripNot(iff.Cond, k == 0)
+				return pred(c, pol)
+			}
+		}
+		isThis := func(x model.DeepInstr) bool { return x.In == d.In }
+		strict := model.DeepPathQuery{Root: fn, Depth: 2, StopEdge: edgeOf(strictEdge), Target: isThis}.Find() == nil
+		atEnd := !strict && model.DeepPathQuery{Root: fn, Depth: 2, StopEdge: func(b *ssa.BasicBlock, k int) bool {
+			return edgeOf(strictEdge)(b, k) || edgeOf(endEdge)(b, k)
+		}, Target: isThis}.Find() == nil
 		// "walked to its end" counts only if the walk goes on to the next item solely where the
 		// new packet is strictly after the current one: in every loop of the function that holds
 		// a CompareSeq test, no way leads from the test back to the loop header except over an
